@@ -225,20 +225,40 @@ class MementoCodec:
 
     @classmethod
     def decode_fn_reference(cls, state: Dict) -> FunctionReference:
-        return FunctionReference.from_qualified_name(
-            qualified_name=state["qualifiedName"],
-            partial_args=(
-                tuple([cls.decode_arg(x) for x in state["partialArgs"]])
-                if state["partialArgs"] is not None
-                else None
-            ),
-            partial_kwargs=(
-                {k: cls.decode_arg(v) for (k, v) in state["partialKwargs"].items()}
-                if state["partialKwargs"] is not None
-                else None
-            ),
-            parameter_names=state["parameterNames"],
+        partial_args = (
+            tuple([cls.decode_arg(x) for x in state["partialArgs"]])
+            if state["partialArgs"] is not None
+            else None
         )
+        partial_kwargs = (
+            {k: cls.decode_arg(v) for (k, v) in state["partialKwargs"].items()}
+            if state["partialKwargs"] is not None
+            else None
+        )
+        parameter_names = state["parameterNames"]
+        fn_reference = FunctionReference.from_qualified_name(
+            qualified_name=state["qualifiedName"],
+            partial_args=partial_args,
+            partial_kwargs=partial_kwargs,
+            parameter_names=parameter_names,
+        )
+        if (
+            not fn_reference.external
+            and parameter_names is not None
+            and list(fn_reference.parameter_names) != list(parameter_names)
+        ):
+            # The function found under this name and version does not have the parameters the
+            # reference was recorded with (its signature was edited, its explicit version
+            # kept): recorded arguments may not even fit it. The reference is to the function
+            # as it was.
+            fn_reference = FunctionReference.from_qualified_name(
+                qualified_name=state["qualifiedName"],
+                partial_args=partial_args,
+                partial_kwargs=partial_kwargs,
+                parameter_names=parameter_names,
+                external=True,
+            )
+        return fn_reference
 
     @classmethod
     def encode_recursive_context(cls, obj: RecursiveContext) -> Dict:
